@@ -152,9 +152,11 @@ Definition enc_got (g : got) : sx :=
 
 Definition s_refetched : str := bytes "refetched".
 
+Definition s_refreshed : str := bytes "refreshed".
+
 Definition heal (g : got) : sx :=
   match g with
-  | Hit _ _ => L [A (bytes "served")]
+  | Hit _ _ => L [A (bytes "served"); enc_got (Hit (mkVer s_refreshed true) s_refreshed)]   (* and refreshed with a new body afterwards *)
   | Miss => L [A (bytes "refilled"); enc_got (Hit (mkVer s_refetched true) s_refetched)]
   end.
 
@@ -189,7 +191,7 @@ Definition probe_ok (bodies : list str) (p : sx) : bool :=
 
 Definition heal_ok (h : sx) : bool :=
   let tag := sx_str (sx_nth 0 h) in
-  str_eqb tag (bytes "served")
+  (str_eqb tag (bytes "served") && probe_ok [s_refreshed] (sx_nth 1 h) && str_eqb (sx_str (sx_nth 0 (sx_nth 1 h))) (bytes "hit"))
   || (str_eqb tag (bytes "refilled") && probe_ok [s_refetched] (sx_nth 1 h) && str_eqb (sx_str (sx_nth 0 (sx_nth 1 h))) (bytes "hit")).
 
 Definition mon_C14 (x po : sx) : sx :=
